@@ -24,7 +24,7 @@ def mk_keys(t, n):
     return [KeyObj(raw=SBytes('keyraw', kid=z3.Int(t.ns + f'sk{i}#kid')), private=True) for i in range(n)]
 
 
-def factory(ns, nkeys=2, pre_entry=True):
+def factory(ns, nkeys=2, pre_entry=True, structured=False):
     def f(eng):
         import conda_content_trust.signing as S
         import conda_content_trust.authentication as A
@@ -34,8 +34,13 @@ def factory(ns, nkeys=2, pre_entry=True):
 
         def harness(eng):
             t = T(eng, ns=ns)
-            p = t.payload('p', dict)
-            p2 = t.payload('p2', dict)
+            if structured:
+                # a JSON object with one number-or-boolean member: 1 and true are == in Python but different JSON values
+                leaf = lambda nm: t.any(nm, [('int', t.int(nm + '.i')), ('bool', t.bool(nm + '.b'))])
+                p, p2 = {'n': leaf('p.n'), 'fixed': [1, 'x']}, {'n': leaf('p2.n'), 'fixed': [1, 'x']}
+            else:
+                p = t.payload('p', dict)
+                p2 = t.payload('p2', dict)
             sks = mk_keys(t, nkeys)
             order = t.bool('order')           # which of two signers signs first in the second run
             it = Interp(eng, ovr)
@@ -285,12 +290,12 @@ def concrete(case):
                 P.append('wrap/sign modified the payload object')
             if not (isinstance(env, dict) and set(env) == {'signatures', 'signed'}):
                 P.append('envelope does not have exactly the two fields')
-            if C.canonserialize(env['signed']) != C.canonserialize(payload):
+            if CC.ref_canon(env['signed']) != CC.ref_canon(payload):
                 P.append('envelope does not carry the payload unchanged')
             if list(env['signatures']) != [refpub[0]]:
                 P.append(f'entry not filed under the signer\'s public key hex: {list(env["signatures"])} vs {refpub[0]}')
             ent = env['signatures'].get(refpub[0])
-            expected_sig = ref[0].sign(C.canonserialize(payload)).hex()
+            expected_sig = ref[0].sign(CC.ref_canon(payload)).hex()
             if ent != {'signature': expected_sig}:
                 P.append('entry is not {"signature": hex(ed25519 signature over the canonical payload bytes)}')
             oc = CC.outcome_of(A.verify_signable, env, [refpub[0]], 1)
@@ -323,13 +328,13 @@ def concrete(case):
                 oc = CC.outcome_of(A.verify_signable, env, [refpub[0], refpub[0]], 2)
                 if oc['kind'] == 'ret':
                     P.append('one signer listed twice among the authorised keys verifies for threshold 2')
-            if C.canonserialize(payload2) != C.canonserialize(payload):
+            if CC.ref_canon(payload2) != CC.ref_canon(payload):
                 env['signed'] = payload2
                 oc = CC.outcome_of(A.verify_signable, env, [refpub[0]], 1)
                 if oc['kind'] == 'ret':
                     P.append('after the payload was changed, the old signature still counts')
                 S.sign_signable(env, sks[0])
-                if env['signatures'].get(refpub[0]) != {'signature': ref[0].sign(C.canonserialize(payload2)).hex()}:
+                if env['signatures'].get(refpub[0]) != {'signature': ref[0].sign(CC.ref_canon(payload2)).hex()}:
                     P.append('signing again after an edit of the payload does not store a signature over the new payload')
                 elif CC.outcome_of(A.verify_signable, env, [refpub[0]], 1)['kind'] != 'ret':
                     P.append('re-signed envelope does not verify')
@@ -351,10 +356,11 @@ def judge(case, obs):
 
 def units(tier):
     return [Unit('roundtrip:2keys', factory('rt2', 2), expect=('verifies', 'two signers'), max_witnesses=40 if tier == 'quick' else 200),
+            Unit('roundtrip:structured', factory('rts', 1, structured=True), expect=('verifies',), max_witnesses=40),
             Unit('sequential signers', sequential_factory('sq'), expect=('two sequential signers',), max_witnesses=10)]
 
 
-BOUNDS = dict(payload='an opaque JSON object (token) and a second one for the post-signing edit (equal or different)',
+BOUNDS = dict(payload='an opaque JSON object (token) and a second one for the post-signing edit (equal or different); in the structured unit an object {n: integer or boolean, fixed: [1, "x"]} (no opaque part, so that code inspecting the payload can be followed)',
               keys='2 private keys with free (possibly equal) 32-byte values; both signing orders', operations='wrap, sign, sign again, second signer, verification for thresholds 1..3, edit, verification')
 OUTSIDE = 'that signatures over other bytes fail (ed25519 unforgeability, A2) -- checked only as argument faithfulness: after an edit verify_signable consults Valid on the new canonical bytes only; RFC 8032 determinism is the assumption that Sign is a function; more than 2 signers; non-dict payloads (C12 covers the copy for all top-level types)'
 ASSUMPTIONS = ['Sign(sk, m) is a function with Valid(Pub(sk), Sign(sk, m), m); Pub is injective on private key bytes; A3']
